@@ -1,8 +1,8 @@
 /-
 Line-protocol driver for C15.
-request : sbom <stream> <format> <n> { <pkg> }            (15 tokens per package)
+request : sbom <stream> <format> <n> { <pkg> }            (19 tokens per package)
   pkg   = <name> <version> <locations> <cpes> <hasPurl 0|1> <type> <ns> <pname> <pversion> <quals> <subpath>
-          <raw> <norm> <normName> <normVersion>
+          <raw> <norm> <normName> <normVersion> <normType> <normNs> <normQuals> <normSubpath>      quals = hexkey:hexvalue,…
   strings are hex, the empty string is `_`; lists are comma-joined, the empty list is `-`;
   raw  = hex of PackageURL.String();  norm = hex of FromString(raw).String(), or `!` when FromString fails
   (raw/norm/normName/normVersion are the per-case table of the purl library, a parameter of the model;
@@ -10,6 +10,8 @@ request : sbom <stream> <format> <n> { <pkg> }            (15 tokens per package
   format ∈ spdx23-json | spdx23-yaml | spdx23-tag-value | cdx-json | cdx-xml
 reply   : purls=<sorted comma-joined hex of the imported purls' String(), or -> extra=<returned packages without purl>
           st=<ok|read-err|unsupported> spec=<the same list computed by the Spec definition> wf=<0|1> lost=<n>
+          specall=<the purls of ALL packages that have one (the property's plain reading; differs from spec= for SPDX when a purl has no name / version)>
+          laws=<0|1>: `Spec.lawsHold` (the per-row part of `NormLaws`: version, name, TYPE, namespace, qualifier values, sub-path) on every row of the table
 The model runs with the IDENTITY codec for every format (the assumption `Codec.roundtrips`).
 -/
 import Scalibr.Base.Wire
@@ -21,37 +23,50 @@ structure DPurl where
   raw : String
   name : String
   version : String
+  typ : String := ""
+  ns : String := ""
+  quals : List (String × String) := []
+  subpath : String := ""
 
 def str? (t : String) : Option String := if t = "_" then some "" else if t = "-" then none else strOfHex t
 
 def list? (t : String) : Option (List String) := (listOf t ",").mapM str?
 
+def quals? (t : String) : Option (List (String × String)) :=
+  (listOf t ",").mapM fun e => match e.splitOn ":" with
+    | [k, v] => match str? k, str? v with
+      | some k, some v => some (k, v)
+      | _, _ => none
+    | _ => none
+
 structure Parsed where
   pkg : Pkg DPurl
   /-- table row of `purl.FromString`: raw ↦ normal form -/
   row : Option (String × Option DPurl)
+  /-- the normal form, when there is one -/
+  normal : Option DPurl := none
 
 def parsePkgs : Nat → List String → Option (List Parsed × List String)
   | 0, ts => some ([], ts)
-  | n + 1, nm :: ver :: locs :: cpes :: hp :: _typ :: _ns :: pn :: pv :: _q :: _sp :: raw :: norm :: nn :: nv :: ts =>
+  | n + 1, nm :: ver :: locs :: cpes :: hp :: typ :: ns :: pn :: pv :: q :: sp :: raw :: norm :: nn :: nv :: ntyp :: nns :: nq :: nsp :: ts =>
     match str? nm, str? ver, list? locs, list? cpes, parsePkgs n ts with
     | some nm, some ver, some locs, some cpes, some (rest, ts') =>
       if hp = "0" then
-        some (⟨{ name := nm, version := ver, locations := locs, extractor := "verif", purl := none, cpes := cpes }, none⟩ :: rest, ts')
+        some (⟨{ name := nm, version := ver, locations := locs, extractor := "verif", purl := none, cpes := cpes }, none, none⟩ :: rest, ts')
       else if hp = "1" then
-        match str? pn, str? pv, str? raw with
-        | some pn, some pv, some raw =>
+        match str? pn, str? pv, str? raw, str? typ, str? ns, quals? q, str? sp with
+        | some pn, some pv, some raw, some typ, some ns, some q, some sp =>
           let normed : Option (Option DPurl) :=
             if norm = "!" then some none
-            else match str? norm, str? nn, str? nv with
-              | some r, some a, some b => some (some ⟨r, a, b⟩)
-              | _, _, _ => none
+            else match str? norm, str? nn, str? nv, str? ntyp, str? nns, quals? nq, str? nsp with
+              | some r, some a, some b, some c, some d, some e, some f => some (some ⟨r, a, b, c, d, e, f⟩)
+              | _, _, _, _, _, _, _ => none
           match normed with
           | some nd =>
             some (⟨{ name := nm, version := ver, locations := locs, extractor := "verif",
-                     purl := some ⟨raw, pn, pv⟩, cpes := cpes }, some (raw, nd)⟩ :: rest, ts')
+                     purl := some ⟨raw, pn, pv, typ, ns, q, sp⟩, cpes := cpes }, some (raw, nd), nd⟩ :: rest, ts')
           | none => none
-        | _, _, _ => none
+        | _, _, _, _, _, _, _ => none
       else none
     | _, _, _, _, _ => none
   | _, _ => none
@@ -61,6 +76,23 @@ def mkOps (table : List (String × Option DPurl)) : PurlOps DPurl where
   parse := fun s => (table.find? fun r => r.1 = s).bind (·.2)
   name := fun u => u.name
   version := fun u => u.version
+
+def dFld : PurlFields DPurl := { typ := (·.typ), ns := (·.ns), quals := (·.quals), subpath := (·.subpath) }
+
+/-- `lawsHold` on every (purl, normal form) row whose type survives normalisation unchanged up to case (the malformed stream's empty /
+slashed types shift the components on re-parse: only the name / version laws apply there, as in c15gen's checkNormLaws) -/
+def asciiS (s : String) : Bool := s.toList.all fun c => c.toNat < 128
+
+/-- `canonName` / `lowerL` fold ASCII case only (core Lean has no Unicode case tables) while packageurl-go lower-cases with
+strings.ToLower: rows whose name, namespace or type hold a non-ASCII character are judged by the fold-free laws only (`lawsExact`:
+version, every qualifier value, sub-path); all other rows by the full `lawsHold`. -/
+def lawsOk (ops : PurlOps DPurl) (ps : List Parsed) : Bool :=
+  ps.all fun p => match p.pkg.purl, p.normal with
+    | some u, some n =>
+      if n.typ.toList ≠ lowerL u.typ then ops.version n = ops.version u && (!(asciiS u.name) || canonName (ops.name n) = canonName (ops.name u))
+      else if asciiS u.name && asciiS u.ns && asciiS u.typ then lawsHold ops dFld u n
+      else lawsExact ops dFld u n
+    | _, _ => true
 
 def env : Env := { uuid := fun k => "00000000-0000-4000-8000-" ++ toString k, now := "1970-01-01T00:00:00Z" }
 def idc (Doc : Type) : Codec Doc Doc := { encode := id, decode := some }
@@ -74,8 +106,8 @@ def spdxFormat? (f : String) : Option SpdxFormat :=
 def cdxFormat? (f : String) : Option CdxFormat :=
   if f = "cdx-json" then some .json else if f = "cdx-xml" then some .xml else none
 
-def render (r : Except Err (List (ImpPkg DPurl))) (spec : List DPurl) (lost : Nat) : String :=
-  let tail := s!" spec={showPurls spec} wf={boolStr (lost == 0)} lost={lost}"
+def render (r : Except Err (List (ImpPkg DPurl))) (spec : List DPurl) (lost : Nat) (laws : Bool) (specAll : List DPurl) : String :=
+  let tail := s!" spec={showPurls spec} wf={boolStr (lost == 0)} lost={lost} laws={boolStr laws} specall={showPurls specAll}"
   match r with
   | .ok pkgs => s!"purls={showPurls (purlsOf pkgs)} extra={(pkgs.filter (·.purl.isNone)).length} st=ok" ++ tail
   | .error .parse => "purls=- extra=0 st=read-err" ++ tail
@@ -93,9 +125,9 @@ def handle (line : String) : String :=
         let ops := mkOps (ps.filterMap (·.row))
         match spdxFormat? fmt, cdxFormat? fmt with
         | some f, _ =>
-          render (roundTripSpdx ops env {} (fun _ => idc SpdxDoc) f inv) (specSpdx ops inv) (lostOf ops (exportedSpdx ops) inv)
+          render (roundTripSpdx ops env {} (fun _ => idc SpdxDoc) f inv) (specSpdx ops inv) (lostOf ops (exportedSpdx ops) inv) (lawsOk ops ps) (specPurls ops hasPurl inv)
         | none, some f =>
-          render (roundTripCdx ops env {} (fun _ => idc Bom) f inv) (specCdx ops inv) (lostOf ops exportedCdx inv)
+          render (roundTripCdx ops env {} (fun _ => idc Bom) f inv) (specCdx ops inv) (lostOf ops exportedCdx inv) (lawsOk ops ps) (specCdx ops inv)
         | none, none => "bad-op"
       | _ => "bad-op"
   | _ => "bad-op"
